@@ -186,8 +186,14 @@ class Gen:
         f = self.r.choice(self.externs if self.focus == "externs" and self.externs and self.has("externals") and self.p(0.7)
                           else self.callables())
         args, texts = [], []
-        for _ in f["params"]:
-            a, t = self.expr(1)
+        gints = [g["n"] for g in self.globals if g["v"]["t"] == "int"]
+        for p_ in f["params"]:
+            if p_ in f.get("refs", ()) and gints:
+                # a `ref` parameter is handed a variable (here: a global), not a value
+                v = self.r.choice(gints)
+                a, t = {"k": "refarg", "n": v}, v
+            else:
+                a, t = self.expr(1)
             args.append(a)
             texts.append(t)
         return f["name"], args, "%s(%s)" % (f["name"], ", ".join(texts))
@@ -865,6 +871,7 @@ class Gen:
             for i in range(r.randint(2, 3)):
                 name = "f%d" % i
                 params = ["a%d_%d" % (i, j) for j in range(r.randint(0, 2))]
+                refs = [x for x in params if self.has("refs") and self.p(0.35)]
                 self.cur = name
                 self.temps = list(params)
                 self.after_choice = False
@@ -872,9 +879,9 @@ class Gen:
                 stmts, lines = self.func_body(params)      # may call the functions generated before it
                 self.bodies[b - 1] = stmts
                 self.knots[name] = {"body": b, "kind": "function", "params": params, "chain": [name], "auto": False}
-                fsrc.append("== function %s(%s) ==" % (name, ", ".join(params)))
+                fsrc.append("== function %s(%s) ==" % (name, ", ".join(("ref " + x) if x in refs else x for x in params)))
                 fsrc += lines
-                self.funcs.append({"name": name, "params": params})
+                self.funcs.append({"name": name, "params": params, "refs": refs})
         for n in names + [n for n, _ in extra]:
             if n in self.stitched:
                 # a knot that consists of stitches: diverting to the knot runs its first stitch
